@@ -13,11 +13,24 @@
 
    Bytes are [Z] in 0..255.  All errors of the reader are one [None]: the Rust side reports an
    anyhow error and the correspondence only distinguishes ok / error / panic. *)
-From Coq Require Import ZArith List Bool Lia.
+From Coq Require Import String Ascii ZArith List Bool Lia.
 Import ListNotations.
 Open Scope Z_scope.
 
 Definition bytes := list Z.
+
+(* hex literals for the correspondence cases (a 20 kB list literal takes coqc many seconds to
+   elaborate; a string literal does not) *)
+Definition hex_digit (c : ascii) : Z :=
+  let n := Z.of_nat (nat_of_ascii c) in
+  if (48 <=? n) && (n <=? 57) then n - 48
+  else if (97 <=? n) && (n <=? 102) then n - 87
+  else 0.
+Fixpoint unhex (s : string) : bytes :=
+  match s with
+  | String a (String b r) => (16 * hex_digit a + hex_digit b) :: unhex r
+  | _ => []
+  end.
 
 Inductive wire : Type := WVarint | WI64 | WLen | WI32.
 
@@ -85,7 +98,7 @@ Definition read_varint32 (bs : bytes) : option (Z * bytes) :=
 (* ---- values ---- *)
 
 Definition split_at (n : nat) (bs : bytes) : option (bytes * bytes) :=
-  if (n <=? length bs)%nat then Some (firstn n bs, skipn n bs) else None.
+  if (n <=? List.length bs)%nat then Some (firstn n bs, skipn n bs) else None.
 
 (* BytesReader::read_bytes: varint32 length, then that many bytes. *)
 Definition read_len (bs : bytes) : option (bytes * bytes) :=
